@@ -1,18 +1,28 @@
 """C34 — aggregate tracers compute exact statistics (spec/tracing/TracerStats.tla)."""
-from vlib import core
+import json, os
+from vlib import core, tracecheck
 
 LEVEL = "model_checking"
 TECHNIQUE = ("TLA+ specification of the four statistics as functions of SETS of tasks (sum of durations, floor of "
              "sum/count, number of unit cells covered by the union of the intervals, bag of tag events), model-checked "
              "by TLC over every time-ordered start/end/tag stream within the bounds; every complete stream is replayed "
              "on the real TotalTimeTracer / AverageTimeTracer / BusyTimeTracer / TagCountTracer (through the tracing "
-             "API with hooks and by direct method calls) and every getter is compared after every event")
+             "API with hooks and by direct method calls) and every getter is compared after every event; concurrent histories: "
+             "seeded histories whose events of one instant are issued on ONE TotalTimeTracer / AverageTimeTracer / TagCountTracer by "
+             "4-8 goroutines owning disjoint tasks (lined up by a spin barrier, a reader goroutine polling the getters meanwhile), "
+             "every getter compared after every join with the set-based values, and the recorded rounds (a sample plus every "
+             "mismatching one) judged by TLC with the trace specification TracerStatsTrace.tla, which loads the recorded set of tasks "
+             "into TracerStats.tla and evaluates its own operators")
 LEVEL_TEXT = ("Exhaustive within bounds: all streams of <=3 tasks (quick; any one task filtered out) or <=3 tasks with any "
               "filter pattern and 4 tracked tasks (thorough) with event times 0..5, every order of same-instant events; "
-              "tag streams of <=3 tasks with <=3 tag events over two names. The verdict is the real tracers' getters.")
+              "tag streams of <=3 tasks with <=3 tag events over two names. The verdict is the real tracers' getters. "
+              "Concurrent histories are a lined-up stress (not exhaustive): tens of thousands of rounds per run, timing-free verdict.")
 LEVEL_NOTE = ("Bounded: more than 4 tasks, times beyond 5 and very long durations (overflow) are not explored. The busy "
               "time is compared only when no tracked task is running, the task count only at such points, the average "
-              "only once a tracked task has completed (the statement is silent elsewhere). TLC and Go are trusted.")
+              "only once a tracked task has completed (the statement is silent elsewhere). Concurrent use is explored for the three "
+              "tracers that guard their state with a mutex, by free-running lined-up goroutines (no gate can be placed inside the tracers: "
+              "they call nothing the harness controls but the filter, before taking the lock), so an interleaving is reached with "
+              "some probability only; BusyTimeTracer has no lock and is driven by one goroutine only. TLC and Go are trusted.")
 
 OPS = {0: "start", 1: "end", 2: "tag"}
 NAMES = ["a", "b", "c"]
@@ -114,6 +124,125 @@ def replay(ck, binary, streams, direct, label, batch=20000):
     return mism
 
 
+# ----------------------------------------------------------------------------- concurrent histories
+
+READER_GETTERS = ("total_during_round", "tagcount_during_round")
+
+
+def judge_records(ck, recs, label):
+    """TLC judges the recorded rounds (TracerStatsTrace.tla); returns the rejected records."""
+    rejected, rest, runs, judged = [], list(recs), 0, 0
+    d = core.scratch("c34conc-")
+    states = 0
+    wall = 0.0
+    while rest:
+        runs += 1
+        path = os.path.join(d, "rounds-%s-%d.ndjson" % (label, runs))
+        with open(path, "w") as f:
+            for r in rest:
+                f.write(json.dumps({k: r[k] for k in ("now", "tasks", "tags", "obs")}) + "\n")
+        v = tracecheck.validate(ck, ["tracing", "common"], "TracerStatsTrace", "TracerStatsTrace.cfg", path, timeout=300)
+        states += v.tlc.distinct
+        wall += v.tlc.wall
+        if v.accepted:
+            judged += len(rest)
+            rest = []
+            break
+        if v.matched is None:
+            raise core.Broken("TracerStatsTrace: a recorded round is not a state of the statement (invariant %s): harness defect" % v.invariant)
+        rejected.append(rest[v.matched])
+        judged += v.matched + 1
+        rest = rest[v.matched + 1:]
+    return rejected, judged, runs, states, wall
+
+
+def concurrent(ck, binary, label, goroutines, epochs, rounds, api, budget_ms, race=False):
+    payload = {"seed": ck.seed + (7 if api else 0) + goroutines, "goroutines": goroutines, "epochs": epochs, "rounds": rounds,
+               "scripts": 256, "sample_every": max(1, epochs // 40), "api": api, "budget_ms": budget_ms, "max_mismatch": 3}
+    try:
+        out = core.harness(binary, "statsconc", payload, timeout=300)
+    except core.Crashed as c:
+        where = c.akita_panic()
+        if where and "/tracing." in where:
+            # a Go panic / fatal error (e.g. concurrent map writes) raised inside a tracer that guards its state with a mutex
+            ck.report({"mode": "concurrent", "tracer": "any", "class": "crash"},
+                      "concurrent history (%s, %d goroutines): the tracers crashed the process: %s" % (label, goroutines, where),
+                      {"driver": "statsconc", "input": payload, "stderr": c.stderr[-3000:]})
+            return
+        if race and "WARNING: DATA RACE" in c.stderr:
+            rep = c.stderr[c.stderr.index("WARNING: DATA RACE"):][:4000]
+            tops = [l.strip() for prev, l in zip(rep.splitlines(), rep.splitlines()[1:])
+                    if prev.startswith(("Read at", "Write at", "Previous read", "Previous write", "Atomic", "Previous atomic"))]
+            if tops and all("akita/v5/tracing." in t for t in tops):
+                ck.report({"mode": "concurrent", "tracer": "any", "class": "data_race_report"},
+                          "race detector: DATA RACE between two tracer methods called from two goroutines (%s): %s" % (label, " / ".join(tops)),
+                          {"driver": "statsconc", "input": payload, "report": rep})
+                return
+        raise
+    if out.get("panic"):
+        if "akita" in out["panic"] or "tracing" in out["panic"] or "runtime error" in out["panic"]:
+            ck.report({"mode": "concurrent", "tracer": "any", "class": "panic"},
+                      "concurrent history (%s): panic %s" % (label, out["panic"]), {"driver": "statsconc", "input": payload})
+            return
+        raise core.Broken("statsconc driver failed: %s" % out["panic"])
+    if out["rounds"] < 200 and not out["mismatch_rounds"]:
+        raise core.Broken("concurrent histories (%s): only %d rounds in %d ms: inconclusive (overloaded machine?)" % (label, out["rounds"], out["wall_ms"]))
+    recs = out["samples"]
+    by_id = {r["id"]: r for r in recs}
+    go_bad = {}
+    for m in out["mismatches"]:
+        go_bad.setdefault(m["record"], []).append(m)
+    set_bad = {i for i, ms in go_bad.items() if any(m["getter"] not in READER_GETTERS for m in ms)}
+    rejected, judged, runs, states, wall = judge_records(ck, recs, label)
+    rej_ids = {r["id"] for r in rejected}
+    for r in rejected:
+        if r["id"] not in set_bad:
+            raise core.Broken("TLC rejects the recorded round %s that the driver's own comparison accepted: the two judges disagree" % json.dumps(r))
+    for i in set_bad:
+        if i not in rej_ids:
+            raise core.Broken("the driver rejected round %s that TLC accepted: the two judges disagree" % json.dumps(by_id[i]))
+    for r in rejected:
+        ms = [m for m in go_bad[r["id"]] if m["getter"] not in READER_GETTERS]
+        g = ms[0]["getter"]
+        cls = "wrong_after_join"
+        if g == "average" and r["obs"]["cnt"] > 0 and all(m["getter"] == "average" for m in ms):
+            cls = "stale_average_after_join"      # total and count of the same tracer are right, the published average is not
+        ck.report({"mode": "concurrent", "tracer": g, "class": cls},
+                  "concurrent history (%s, %d goroutines, seed %d, epoch %d = script %d, round %d at t=%d): after every call of the round had "
+                  "returned (%d tracked tasks ended in it, by %d goroutines) the getters gave %s; TLC (TracerStatsTrace) finds that the "
+                  "set of tasks issued so far demands %s" % (
+                      label, goroutines, payload["seed"], r["epoch"], r["script"], r["round"], r["now"], r["ends_now"], r["owners"],
+                      json.dumps(r["obs"]), ", ".join("%s%s=%s (got %s)" % (m["getter"], "[%s]" % m["tag"] if m.get("tag") else "", m["want"], m["got"]) for m in ms)),
+                  {"driver": "statsconc", "input": payload, "spec": "spec/tracing/TracerStatsTrace.tla", "record": r,
+                   "note": "lined-up stress: the interleaving is reached with some probability; rerun the input (it stops at the first mismatching rounds)"})
+    # the reader: values polled while a round runs lie between the values of the two surrounding joins (PROPERTY Monotone)
+    for i, ms in go_bad.items():
+        for m in ms:
+            if m["getter"] in READER_GETTERS:
+                r = by_id[i]
+                ck.report({"mode": "concurrent", "tracer": m["getter"].split("_")[0], "class": "reader_outside_surrounding_joins"},
+                          "concurrent history (%s): a getter polled by the reader goroutine during epoch %d round %d returned %s, outside %s "
+                          "(the values for the sets of events issued before and after the round)" % (label, r["epoch"], r["round"], m["got"], m["want"]),
+                          {"driver": "statsconc", "input": payload, "record": r})
+    ck.cov["traces_validated_against_impl"] += out["epochs"]
+    ck.cov["evaluations"] += out["comparisons"]
+    for k, v in (("concurrent_histories", out["epochs"]), ("concurrent_rounds", out["rounds"]), ("concurrent_events", out["events"]),
+                 ("concurrent_rounds_with_racing_ends", out["concurrent_end_rounds"]), ("concurrent_reader_polls", out["reader_reads"]),
+                 ("concurrent_rounds_judged_by_tlc", judged), ("concurrent_rounds_rejected_by_tlc", len(rejected))):
+        ck.cov[k] = ck.cov.get(k, 0) + v
+    ck.note("%s: %d concurrent histories (%d distinct scripts, <=%d tasks) = %d rounds of %d goroutines + reader in %.1fs (%s%s), %d events, "
+            "%d rounds in which >=2 goroutines end tracked tasks, %d getter comparisons, %d reader polls, %d mismatching rounds; "
+            "TLC judged %d recorded rounds in %d run(s) (%d states, %.1fs): %d rejected" % (
+                label, out["epochs"], out["scripts"], out["max_tasks"], out["rounds"], goroutines, out["wall_ms"] / 1000.0,
+                "tracing API, one hooked domain per goroutine" if api else "direct calls", ", race detector" if race else "",
+                out["events"], out["concurrent_end_rounds"], out["comparisons"], out["reader_reads"], out["mismatch_rounds"],
+                judged, runs, states, wall, len(rejected)))
+    if recs and not rejected:
+        r = recs[len(recs) // 2]
+        ck.sample({"concurrent_round": {"goroutines": goroutines, "epoch": r["epoch"], "round": r["round"], "tasks_started": len(r["tasks"]),
+                                        "tag_events": len(r["tags"]), "ended_in_round": r["ends_now"], "observed": r["obs"], "tlc": "accepted"}}, cap=8)
+
+
 def run(ck):
     quick = ck.tier == "quick"
     cfgs = [("times", "TracerStats_q.cfg"), ("tags", "TracerStats_tags_q.cfg")] if quick else \
@@ -138,6 +267,18 @@ def run(ck):
         for s in ck.rng.sample(streams, 2):
             ck.sample({"events": pretty(s), "expected_after_last_event": dict(total=s[-1][4], count=s[-1][5], average=s[-1][6], busy=s[-1][7],
                                                                                 tags=s[-1][8:])})
+    # concurrent histories on the tracers that are built for it (mutex-guarded state)
+    if quick:
+        concurrent(ck, binary, "conc6", 6, 12000, 5, False, 5000)
+        concurrent(ck, binary, "conc4-api", 4, 12000, 5, True, 3000)
+    else:
+        concurrent(ck, binary, "conc6", 6, 120000, 5, False, 25000)
+        concurrent(ck, binary, "conc8", 8, 40000, 6, False, 15000)
+        concurrent(ck, binary, "conc4", 4, 60000, 4, False, 10000)
+        concurrent(ck, binary, "conc6-api", 6, 40000, 5, True, 15000)
+        rb = ck.binary("tracers", race=True)
+        concurrent(ck, rb, "conc6-race", 6, 20000, 5, False, 15000, race=True)
+        concurrent(ck, rb, "conc4-api-race", 4, 10000, 5, True, 10000, race=True)
     ck.cov["distinct_nontrivial"] = seen_nt
     ck.cov["exhaustive"] = True
     ck.cov["rule"] = ("TLC enumerates every time-ordered stream of start/end/tag events within the bounds of the cfg files "
@@ -146,9 +287,14 @@ def run(ck):
                       "every event the getters are compared with the set-based values (total, average = floor(sum/count) "
                       "once a task completed, count and busy = union length when no tracked task is running, tags recorded "
                       "and distinct tracked tasks per name). Non-trivial = a stream with two overlapping/touching tracked "
-                      "tasks, a filtered-out task or a tag event.")
+                      "tasks, a filtered-out task or a tag event. Concurrent histories: one case = one seeded history of 4-6 instants whose "
+                      "events are issued by 4-8 goroutines (disjoint tasks, widely spread durations 0..1.5e6) on shared tracers; after every "
+                      "instant (all goroutines joined) total, count, average and tag/task counts are compared with the values for the set of "
+                      "events issued so far; sampled and mismatching rounds are judged by TLC (TracerStatsTrace.tla).")
     ck.assumptions += [
         "times are small integers (0..5): overflow of the picosecond counters is out of scope",
         "a tag is only attached to a task that is currently running; tag events on filtered-out tasks count as recorded tags but not as tracked tasks",
+        "concurrent callers deliver the events of one simulated instant (as the components of a parallel engine do) and each task is "
+        "started, tagged and ended by one goroutine; BusyTimeTracer (no lock) is not called concurrently",
         "task IDs are distinct; BusyTimeTracer.TerminateAllTasks is not exercised (the statement speaks of start/end events)",
     ]
